@@ -169,7 +169,9 @@ def tree_link_rule(ctx, w, rule="C17.tree-links"):
                                     via.append(M.callee_name(c2).rsplit("::", 1)[-1])
         n += 1
         key = PC.key_path(g["path"])
-        clears = [x for x in par + via if x in ("take", "replace", "set", "swap")]
+        # a removal is matched by a clear in the function itself, or by a `take` in a callee: a callee that SETS the link (append_child) does
+        # not stand for clearing it - it may first detach the node through the stale link
+        clears = [x for x in par if x in ("take", "replace", "set", "swap")] + [x for x in via if x == "take"]
         sets = [x for x in par + via if x in ("replace", "set", "swap")]
         good = (not rem or bool(clears)) and (not ins or bool(sets))
         ctx.check(good, rule, f"{rule}:{key}", w.where(g),
